@@ -566,6 +566,8 @@ def main(ctx):
         for n in lib.theorem_names(lib.COQ / 'C02' / 'Props.v'):
             ctx.obligations.append({'name': n, 'discharged': False, 'assumptions': [],
                                     'note': 'translator failed closed'})
+    if tie_ok and proof_ok and ctx.tier == 'thorough' and hasattr(ctx, 'coqchk'):
+        ctx.coqchk('C02/Props.v')
     # per-run obligation: the time-series branch accepts a single result file
     single_ok = False
     if tie_ok and proof_ok:
@@ -597,7 +599,7 @@ def main(ctx):
     for c in load_corpus():
         c['id'] = len(cases)
         cases.append(c)
-    n = {'quick': 120, 'thorough': 3000}[ctx.tier]
+    n = {'quick': 120, 'thorough': 2000}[ctx.tier]
     for _ in range(n):
         cases.append(gen_case(ctx.rng, len(cases)))
     step = 300
